@@ -186,6 +186,11 @@ func (m *maxInflightWrapper) SetLimit(acquireResult *AcquireResult) bool {
 			if inflight < localMax {
 				inflight = localMax
 			}
+			// the meter also counts what the local limiter admitted; the
+			// global limit still bounds this one
+			if inflight > m.max {
+				inflight = m.max
+			}
 			klog.V(2).Infof("[global maxInflight] cluster=%q resize flowcontrol=%s max=%v for error: %v",
 				m.fcc.cluster, m.fcc.name, inflight, result.Error)
 			m.FlowControl.Resize(uint32(inflight), 0)
@@ -213,9 +218,17 @@ func (m *maxInflightWrapper) SetLimit(acquireResult *AcquireResult) bool {
 		atomic.StoreInt32(&m.acquiredMaxInflight, limit)
 		m.FlowControl.Resize(uint32(limit), 0)
 	} else {
+		// the server may answer anything: never below zero, never beyond the global limit
+		limit := result.Limit
+		if limit < 0 {
+			limit = 0
+		}
+		if limit > m.max {
+			limit = m.max
+		}
 		atomic.StoreInt32(&m.overLimited, 1)
-		atomic.StoreInt32(&m.acquiredMaxInflight, result.Limit)
-		m.FlowControl.Resize(uint32(result.Limit), 0)
+		atomic.StoreInt32(&m.acquiredMaxInflight, limit)
+		m.FlowControl.Resize(uint32(limit), 0)
 	}
 
 	atomic.StoreInt64(&m.lastAcquireTime, acquireResult.requestTime)
@@ -385,6 +398,11 @@ func (m *tokenBucketWrapper) SetLimit(acquireResult *AcquireResult) bool {
 			if lastQPS < float64(localQPS) {
 				lastQPS = float64(localQPS)
 			}
+			// the meter also counts what the local limiter admitted; the
+			// global limit still bounds this one
+			if lastQPS > float64(m.qps) {
+				lastQPS = float64(m.qps)
+			}
 			klog.V(2).Infof("[global tokenBucket] cluster=%q resize flowcontrol=%s qps=%v requestID=%v for error: %v",
 				m.fcc.cluster, m.fcc.name, lastQPS, acquireResult.requestTime, result.Error)
 
@@ -407,7 +425,10 @@ func (m *tokenBucketWrapper) SetLimit(acquireResult *AcquireResult) bool {
 		if token > m.reserve {
 			token = m.reserve
 		}
-		atomic.AddInt32(&m.tokens, result.Limit)
+		if token < 0 {
+			token = 0
+		}
+		atomic.AddInt32(&m.tokens, token)
 	}
 
 	atomic.StoreInt64(&m.lastAcquireTime, acquireResult.requestTime)
